@@ -227,6 +227,8 @@ CORPUS = [
     ["a.com/Index.html", "a.com/Index.html/index.html"],
     ["http://a.com/x%E3%80%80"],
     ["a.com?k=a=b&k=a5"],
+    # KF-C03-5: unknown scheme + empty authority
+    ["localhost://?a", "custom:///p"],
     # cleaning order: control characters go first, then the surrounding whitespace
     ["\x00 a.com/x", "a.com/x \x00", " \x00 http://a.com/x", "a.com/x"],
     # further shapes
@@ -253,7 +255,7 @@ def cases(rng, tier):
                 yield _mk(parts=p, recipes=[[t]], tseed=k, o=OPTS[0] if k % 3 else OPTS[k % 8])
         else:
             yield _mk(parts=p, recipes=[[c02[k % len(c02)]], [nts[k % len(nts)]]], tseed=k, o=OPTS[0])
-    n = 4000 if tier == "quick" else 40000
+    n = 3000 if tier == "quick" else 40000
     for i in range(n):
         p = nc.random_norm_parts(rng) if i % 3 else urlgen.random_parts(rng)
         recipes = [[rng.choice(TN) for _ in range(rng.randint(1, 3))] for _ in range(rng.randint(1, 3))]
@@ -505,7 +507,32 @@ def kf_quoted_raw_delim(case, failure):
     return False
 
 
-KF_PREDICATES = [kf_redirect_hint, kf_platform_aware, kf_index_case, kf_quoted_raw_delim]
+def kf_protocol_lost(case, failure):
+    """KF-C03-5 (genuine defect of canonicalize_url, notes/fixes/c03-canonicalize-keeps-empty-authority.diff):
+    for a scheme urllib does not know and an empty authority ('custom:///p', 'localhost://?a'), urlunsplit
+    prints the canonical form without '//' ('custom:/p'), which no ural function recognises as having a
+    protocol: it is read back as host 'custom'. Recognised: the cleaned input matches PROTOCOL_RE, its
+    canonical form does not."""
+    from ural import canonicalize_url
+    from ural.patterns import PROTOCOL_RE
+
+    t = _tail(failure)
+    if t["rel"] not in ("a", "c1", "c2"):
+        return False
+    for x in (t["u"], t["v"]):
+        if x is None:
+            continue
+        try:
+            has = nc.prepare(x, {"infer_redirection": False})["has_protocol"]
+            c = canonicalize_url(x, quoted=t["quoted"])
+        except Exception:  # noqa
+            continue
+        if has and not PROTOCOL_RE.match(c):
+            return True
+    return False
+
+
+KF_PREDICATES = [kf_redirect_hint, kf_platform_aware, kf_index_case, kf_quoted_raw_delim, kf_protocol_lost]
 
 
 # ---------------------------------------------------------------------------------------
